@@ -95,7 +95,7 @@ func (c11TimeoutErr) Error() string   { return "c11: i/o deadline exceeded" }
 func (c11TimeoutErr) Timeout() bool   { return true }
 func (c11TimeoutErr) Temporary() bool { return true }
 
-var errC11Closed = errors.New("c11: stream closed")
+var c11ErrClosed = errors.New("c11: stream closed")
 
 // c11Stream is the relay's end of a stream. The h* methods are the harness's end.
 type c11Stream struct {
@@ -150,7 +150,7 @@ func (s *c11Stream) Read(p []byte) (int, error) {
 			return 0, network.ErrReset
 		case s.inClosed:
 			s.mu.Unlock()
-			return 0, errC11Closed
+			return 0, c11ErrClosed
 		case len(s.in) > 0:
 			n := copy(p, s.in)
 			s.in = s.in[n:]
@@ -187,7 +187,7 @@ func (s *c11Stream) Write(p []byte) (int, error) {
 	case s.selfReset || s.peerReset:
 		return 0, network.ErrReset
 	case s.selfClosed || s.outEOF:
-		return 0, errC11Closed
+		return 0, c11ErrClosed
 	}
 	if !s.wdl.IsZero() && !time.Now().Before(s.wdl) {
 		return 0, c11TimeoutErr{}
@@ -414,16 +414,18 @@ type c11Conn struct {
 
 var _ network.Conn = (*c11Conn)(nil)
 
-func (c *c11Conn) Close() error                                 { c.net.closeConn(c); return nil }
-func (c *c11Conn) CloseWithError(network.ConnErrorCode) error   { return c.Close() }
-func (c *c11Conn) LocalPeer() peer.ID                           { return c.net.local }
-func (c *c11Conn) RemotePeer() peer.ID                          { return c.remote.id }
-func (c *c11Conn) RemotePublicKey() crypto.PubKey               { return c.remote.priv.GetPublic() }
-func (c *c11Conn) ConnState() network.ConnectionState           { return network.ConnectionState{Transport: "c11"} }
-func (c *c11Conn) LocalMultiaddr() ma.Multiaddr                 { return c.laddr }
-func (c *c11Conn) RemoteMultiaddr() ma.Multiaddr                { return c.raddr }
-func (c *c11Conn) Scope() network.ConnScope                     { return &network.NullScope{} }
-func (c *c11Conn) ID() string                                   { return c.name }
+func (c *c11Conn) Close() error                               { c.net.closeConn(c); return nil }
+func (c *c11Conn) CloseWithError(network.ConnErrorCode) error { return c.Close() }
+func (c *c11Conn) LocalPeer() peer.ID                         { return c.net.local }
+func (c *c11Conn) RemotePeer() peer.ID                        { return c.remote.id }
+func (c *c11Conn) RemotePublicKey() crypto.PubKey             { return c.remote.priv.GetPublic() }
+func (c *c11Conn) ConnState() network.ConnectionState {
+	return network.ConnectionState{Transport: "c11"}
+}
+func (c *c11Conn) LocalMultiaddr() ma.Multiaddr  { return c.laddr }
+func (c *c11Conn) RemoteMultiaddr() ma.Multiaddr { return c.raddr }
+func (c *c11Conn) Scope() network.ConnScope      { return &network.NullScope{} }
+func (c *c11Conn) ID() string                    { return c.name }
 func (c *c11Conn) NewStream(context.Context) (network.Stream, error) {
 	return nil, errors.New("c11: Conn.NewStream is not part of the fixture")
 }
@@ -635,11 +637,11 @@ type c11Host struct {
 
 var _ host.Host = (*c11Host)(nil)
 
-func (h *c11Host) ID() peer.ID                        { return h.ident.id }
-func (h *c11Host) Peerstore() peerstore.Peerstore     { return h.ps }
-func (h *c11Host) Addrs() []ma.Multiaddr              { return h.addrs }
-func (h *c11Host) Network() network.Network           { return h.net }
-func (h *c11Host) Mux() protocol.Switch               { return nil }
+func (h *c11Host) ID() peer.ID                    { return h.ident.id }
+func (h *c11Host) Peerstore() peerstore.Peerstore { return h.ps }
+func (h *c11Host) Addrs() []ma.Multiaddr          { return h.addrs }
+func (h *c11Host) Network() network.Network       { return h.net }
+func (h *c11Host) Mux() protocol.Switch           { return nil }
 func (h *c11Host) Connect(context.Context, peer.AddrInfo) error {
 	return errors.New("c11: Connect is not part of the fixture")
 }
@@ -731,12 +733,12 @@ func (h *c11Host) outboundAt(i int) *c11Stream {
 // ---------- counting / refusing decorator around the real resource manager ----------
 
 const (
-	c11CallBeginSpan   = "BeginSpan"               // r.scope.BeginSpan() in handleConnect
-	c11CallSpanReserve = "Span.ReserveMemory"      // span.ReserveMemory(2*BufferSize)
-	c11CallInService   = "hop.SetService"          // s.Scope().SetService in handleStream
-	c11CallInReserve   = "hop.ReserveMemory"       // s.Scope().ReserveMemory in handleStream
-	c11CallOutService  = "stop.SetService"         // bs.Scope().SetService in handleConnect
-	c11CallOutReserve  = "stop.ReserveMemory"      // bs.Scope().ReserveMemory in handleConnect
+	c11CallBeginSpan   = "BeginSpan"          // r.scope.BeginSpan() in handleConnect
+	c11CallSpanReserve = "Span.ReserveMemory" // span.ReserveMemory(2*BufferSize)
+	c11CallInService   = "hop.SetService"     // s.Scope().SetService in handleStream
+	c11CallInReserve   = "hop.ReserveMemory"  // s.Scope().ReserveMemory in handleStream
+	c11CallOutService  = "stop.SetService"    // bs.Scope().SetService in handleConnect
+	c11CallOutReserve  = "stop.ReserveMemory" // bs.Scope().ReserveMemory in handleConnect
 )
 
 var c11RcmgrCalls = []string{c11CallInService, c11CallInReserve, c11CallBeginSpan, c11CallSpanReserve, c11CallOutService, c11CallOutReserve}
@@ -1070,18 +1072,18 @@ func (sy *c11Sys) disconnect(c int) {
 // ---------- white-box observation ----------
 
 type c11Obs struct {
-	Rsvp      map[string]string // label -> remaining ("exp" once expired)
-	Conns     map[string]int
-	Total     []string
-	IPs       map[string][]string
-	ASNs      map[string][]string
-	Tags      map[string]string // label -> sorted tags ("-" when the connection manager does not know the peer)
-	SvcMem    int64
-	SvcIn     int
-	SvcOut    int
-	SysMem    int64
-	SysIn     int
-	SysOut    int
+	Rsvp   map[string]string // label -> remaining ("exp" once expired)
+	Conns  map[string]int
+	Total  []string
+	IPs    map[string][]string
+	ASNs   map[string][]string
+	Tags   map[string]string // label -> sorted tags ("-" when the connection manager does not know the peer)
+	SvcMem int64
+	SvcIn  int
+	SvcOut int
+	SysMem int64
+	SysIn  int
+	SysOut int
 }
 
 func c11Rem(t, now time.Time) string {
